@@ -271,6 +271,78 @@ pub fn decode_in_message(
     }
 }
 
+/// The embedded names of RDATA as a serialiser that only needs to find the
+/// names sees them: the layout's fields must parse, but octets after the last
+/// field are tolerated.  None if a field does not parse.
+pub fn leading_names(class: u16, rtype: u16, rdata: &[u8]) -> Option<Vec<(MName, bool)>> {
+    let layout = match name_layout(class, rtype) {
+        Some(l) => l,
+        None => return Some(Vec::new()),
+    };
+    let mut pos = 0;
+    let mut out = Vec::new();
+    for f in layout {
+        match f {
+            Field::CName | Field::UName => {
+                let (n, len) = MName::from_wire(rdata.get(pos..)?)?;
+                out.push((n, matches!(f, Field::CName)));
+                pos += len;
+            }
+            Field::Fixed(n) => {
+                // SOA's trailing fixed block is not needed to locate names
+                if rdata.len() < pos + n {
+                    if out.len() == layout.iter().filter(|f| !matches!(f, Field::Fixed(_))).count() {
+                        return Some(out);
+                    }
+                    return None;
+                }
+                pos += n;
+            }
+        }
+    }
+    Some(out)
+}
+
+/// Lenient in-message decode: follows the layout as far as it goes and copies
+/// whatever follows verbatim; nameless types are returned raw without
+/// validation.  None if an embedded name cannot be decoded.
+pub fn decode_in_message_lenient(
+    class: u16,
+    rtype: u16,
+    msg: &[u8],
+    start: usize,
+    rdlength: usize,
+) -> Option<(Vec<u8>, Vec<(usize, NameDecode, bool)>)> {
+    let end = start + rdlength;
+    if end > msg.len() {
+        return None;
+    }
+    let view = &msg[..end];
+    let mut out = Vec::new();
+    let mut names = Vec::new();
+    let mut pos = start;
+    if let Some(layout) = name_layout(class, rtype) {
+        for f in layout {
+            match f {
+                Field::CName | Field::UName => {
+                    let d = decode_name(view, pos).ok()?;
+                    out.extend_from_slice(&d.name.wire());
+                    let at = pos;
+                    pos += d.first_chunk_len;
+                    names.push((at, d, matches!(f, Field::CName)));
+                }
+                Field::Fixed(n) => {
+                    let take = (*n).min(end - pos);
+                    out.extend_from_slice(&view[pos..pos + take]);
+                    pos += take;
+                }
+            }
+        }
+    }
+    out.extend_from_slice(&view[pos..end]);
+    Some((out, names))
+}
+
 /// RDATA equality (RFC 3597 §6 plus the pre-3597 case-insensitive names):
 /// when both are well formed for a name-bearing type, compare field-wise with
 /// names case-folded; otherwise octet-wise.
